@@ -3,7 +3,7 @@ import itertools
 
 from hypothesis import strategies as st
 
-from vlib.core import SubCheck, Violation, Outcome
+from vlib.core import SubCheck, Violation, Outcome, fresh
 from vlib import tt
 
 PROPERTY = "C04"
@@ -88,7 +88,7 @@ def run_linear(case):
     arg = _container(kind, lits)
     m = getattr(F, method)
     if method == 'add_linear':
-        m(arg, op, const, check=check)
+        m(arg, fresh(op), const, check=check)
     elif method == 'add_parity':
         m(arg, const, check=check)
     elif method.startswith('cardinality_'):
@@ -211,7 +211,7 @@ def run_normalize(case):
     nv = case['nv']
     terms = [tuple(t) for t in case['terms']] if case.get('pairs', 'tuple') == 'tuple' else [list(t) for t in case['terms']]
     op, d = case['op'], case['d']
-    cons = list(terms) + [op, d]
+    cons = list(terms) + [fresh(op), d]
     snapshot = list(cons)
     out = normalize_opb(cons)
     if cons != snapshot:
@@ -491,7 +491,7 @@ def run_sequence(case):
         arg = _container(kind, lits)
         m = getattr(F, method)
         if method == 'add_linear':
-            m(arg, op, const)
+            m(arg, fresh(op), const)
         elif method == 'add_parity' or method.startswith('cardinality_'):
             m(arg, const)
         else:
@@ -544,7 +544,7 @@ def run_long(case):
     arg = _container(case['container'], lits)
     m = getattr(F, method)
     if method == 'add_linear':
-        m(arg, op, const)
+        m(arg, fresh(op), const)
     elif method == 'add_parity' or method.startswith('cardinality_'):
         m(arg, const)
     else:
